@@ -11,8 +11,13 @@
   R3 (field accept sets)  BitUnpack on arbitrary bytes, for every (a, b) in use: the accepted
       coefficients are exactly [-a, b] (both directions as in C10), so no out-of-range field is
       read as a coefficient; BitPack of any w in [-a, b] violates no obligation (C13).
-Not decided: re-encode identity for every accepted byte string and the bit-level bijection of
-BitPack/BitUnpack (would need quantified array invariants / bit-provenance).
+  R4 (bit-exact re-encoding)  decode followed by encode, with EVERY INPUT BIT a boolean symbol and
+      bit fields followed as exact linear forms over these symbols (low/high split rule for
+      masks, shifts, byte extraction): skEncode(skDecode(b)) = b and pkEncode(pkDecode(b)) = b for
+      every accepted b, and sigEncode(sigDecode(s)) reproduces c-tilde and all z fields of every
+      accepted s.  Hence decoding is injective on accepted strings (no second encoding of the same
+      key / response vector); for the hint section the same follows from the classes of R1 only.
+Not decided: re-encode identity of the hint section for every accepted string (symbolic indices).
 """
 import json
 import os
@@ -88,7 +93,7 @@ def main(tier):
     return rep.finish("other", cov, ["class family is a cover of the taxonomy, not of all inputs", "re-encode identity not decided"])
 
 
-def analyse(rep, ob, sets, rules=("R1", "R2", "R3"), prefix="", codecs=("sig", "pk", "sk")):
+def analyse(rep, ob, sets, rules=("R1", "R2", "R3", "R4"), prefix="", codecs=("sig", "pk", "sk")):
     if prefix:
         ob0 = ob
         ob = lambda ok, key, detail: ob0(ok, prefix + key, detail)
@@ -117,6 +122,19 @@ def analyse(rep, ob, sets, rules=("R1", "R2", "R3"), prefix="", codecs=("sig", "
         for nm, a, b in (("eta", eta, eta), ("t0", (1 << 12) - 1, 1 << 12), ("z", g1 - 1, g1), ("t1", 0, 1023)):
             c = bitlen(a + b)
             J.append(("%s:unpack:%s" % (s, nm), "conversion::bit_unpack", {"arg1": "%d..%d" % (a, a), "arg2": "%d..%d" % (b, b), "len.v": "%d..%d" % (32 * c, 32 * c), "probe": "conversion::bit_unpack"}))
+        if "R4" in rules:
+            bits = {"atoms.big": "1", "lin.cap": "64", "then.spread": "1"}
+            if "sig" in codecs:
+                J.append(("%s:bits:sig" % s, "encodings::sig_decode::<%d_usize, %d_usize, %d_usize, %d_usize>" % (k, l, lam4, P["sig_len"]),
+                          dict(bits, **{"arg0": g, "arg1": o, "atoms.arg2": "bits", "bytes_identity": "arg2", "then.prefix": "%d:i32,%d:i32" % (g1, om),
+                                        "then": "encodings::sig_encode::<false, %d_usize, %d_usize, %d_usize, %d_usize>" % (k, l, lam4, P["sig_len"])})))
+            if "pk" in codecs:
+                J.append(("%s:bits:pk" % s, "encodings::pk_decode::<%d_usize, %d_usize>" % (k, P["pk_len"]),
+                          dict(bits, **{"atoms.arg0": "bits", "bytes_identity": "arg0", "then": "encodings::pk_encode::<%d_usize, %d_usize>" % (k, P["pk_len"])})))
+            if "sk" in codecs:
+                J.append(("%s:bits:sk" % s, "encodings::sk_decode::<%d_usize, %d_usize, %d_usize>" % (k, l, P["sk_len"]),
+                          dict(bits, **{"arg0": e, "atoms.arg1": "bits", "bytes_identity": "arg1", "then.prefix": "%d:i32" % eta,
+                                        "then": "encodings::sk_encode::<%d_usize, %d_usize, %d_usize>" % (k, l, P["sk_len"])})))
         jobs[s] = J
     res, errs = aicheck.run_sets(jobs)
     for s in sets:
@@ -183,6 +201,24 @@ def analyse(rep, ob, sets, rules=("R1", "R2", "R3"), prefix="", codecs=("sig", "
             elif w is not None:
                 wr = w.get("int") if isinstance(w, dict) else None
                 ob(wr is not None and (wr[1] < -a or wr[0] > b), "R3:reject-witness:%s" % nm, {"rule": "R3 rejected elements lie outside [-a, b]", "set": s, "rejecting_interval": wr})
+        # R4: decode then encode reproduces the input bit for bit (every input bit is a boolean symbol)
+        if "R4" in rules:
+            hint_off = P["sig_len"] - P["omega"] - P["k"]
+            for what, total, need in (("sig", P["sig_len"], hint_off), ("pk", P["pk_len"], P["pk_len"]), ("sk", P["sk_len"], P["sk_len"])):
+                if what not in codecs:
+                    continue
+                j = byid.get("%s:bits:%s" % (s, what))
+                bi = (j or {}).get("bytes_identity")
+                if not j or j.get("error") or not bi:
+                    vlib.fail_closed(rep, "job:bits:%s:%s" % (s, what), (j or {}).get("error") or "no byte-identity result")
+                    continue
+                fd = [x[0] for x in bi.get("first_different", [])]
+                okb = bi["bytes"] == total and bi["identical"] >= need and all(i >= need for i in fd)
+                ob(okb, "R4:reencode-identity:%s" % what,
+                   {"rule": "R4 encode(decode(b)) = b bit for bit for every accepted b" + (" (c-tilde and all z fields; the hint section is decided by the classes of R1)" if what == "sig" else ""),
+                    "set": s, "bytes": total, "required_identical_prefix": need, "identical": bi["identical"], "first_different": bi.get("first_different")})
+                if len(samples) < 12:
+                    samples.append({"set": s, "codec": what, "bytes_reencoded_identically": bi["identical"], "of": total})
         bad = [] if "R1" not in rules else [x for x in r["sites"] if x["violated"] and x["inst"].startswith("conversion::hint_bit_unpack") and "too many 1's" not in x.get("msg", "")]
         for x in bad:
             ob(False, "R1:obligation:" + aicheck.stable_key(x), aicheck.site_report(x))
